@@ -362,7 +362,7 @@ pub fn gen_spec(rng: &mut Rng) -> AssetSpec {
     s
 }
 
-pub const REQUIRED: &[&str] = &["each_field_alone", "all_absent", "all_present", "adjacent_pairs", "no_specs", "poisoned_by_failing_calls_first"];
+pub const REQUIRED: &[&str] = &["each_field_alone", "all_absent", "all_present", "adjacent_pairs", "no_specs", "poisoned_by_failing_calls_first", "spec_count_around_256_1024_4096_65536"];
 
 pub fn run(cx: &mut Ctx) {
     cx.require(REQUIRED);
@@ -421,6 +421,28 @@ pub fn run(cx: &mut Ctx) {
                 check(c, 7, &[s, follower.clone()], "adjacent_pair");
             }
         });
+    }
+    if !miri {
+        // thresholds: spec counts at and around 256 / 1024 / 4096 / 65536
+        for (i, count) in [255usize, 256, 257, 1023, 1024, 1025, 4095, 4096, 4097, 5000, 65535, 65536, 65537].into_iter().enumerate() {
+            if count > 60000 && cx.a.quick() && i % 2 == 1 {
+                continue;
+            }
+            cx.case("spec_count_thresholds", |c| {
+                c.sit("spec_count_around_256_1024_4096_65536");
+                let mut rng = c.rng.clone();
+                let protos: Vec<AssetSpec> = (0..6).map(|_| gen_spec(&mut rng)).collect();
+                let specs: Vec<AssetSpec> = (0..count)
+                    .map(|k| {
+                        let mut s = protos[k % protos.len()].clone();
+                        s.name = Some(format!("n{}", k));
+                        s
+                    })
+                    .collect();
+                c.eval(count as u64);
+                check(c, 3, &specs, "spec_count_thresholds");
+            });
+        }
     }
     let n = cx.a.n(100_000, 1_000_000);
     for _ in 0..n {
